@@ -25,6 +25,9 @@ def map_async(iterable, functor, *args, **kwds):
     parallelism = kwds.pop("threads", None)
     if parallelism is None:
         parallelism = cpu_count()
+    # somebody has to consume the queue: without a worker every item would be
+    # queued and silently dropped
+    parallelism = max(parallelism, 1)
 
     if hasattr(iterable, "__len__"):
         # if there are less items than parallelism, don't
